@@ -70,9 +70,7 @@ impl Header {
     where
         W: io::Write,
     {
-        writer.write_all(&MAGIC)?;
         let version_bytes = self.version.to_header_bytes();
-        writer.write_all(&version_bytes)?;
 
         let fmt_dict = self.dict.to_string();
 
@@ -85,6 +83,17 @@ impl Header {
         assert_eq!((len + pad_len) % ALIGN, 0);
 
         let header_len = fmt_dict.len() + pad_len;
+
+        // Check that the header length can be represented before anything has been written
+        if !self.version.fits_header_len(header_len) {
+            return Err(io::Error::new(
+                io::ErrorKind::InvalidInput,
+                "shape has too many dimensions to be described by an npy header",
+            ));
+        }
+
+        writer.write_all(&MAGIC)?;
+        writer.write_all(&version_bytes)?;
         self.version.write_header_len(header_len, writer)?;
 
         writer.write_all(&fmt_dict.into_bytes())?;
@@ -213,6 +222,14 @@ impl Version {
             Version::V1 => [1, 0],
             Version::V2 => [2, 0],
             Version::V3 => [3, 0],
+        }
+    }
+
+    /// Returns true if the header_len can be represented in the bytes used by the version.
+    fn fits_header_len(&self, header_len: usize) -> bool {
+        match self {
+            Version::V1 => u16::try_from(header_len).is_ok(),
+            Version::V2 | Version::V3 => u32::try_from(header_len).is_ok(),
         }
     }
 
